@@ -642,7 +642,7 @@ var resultIntervalMemo = map[string]*Itv{}
 
 // resultInterval: the hull of the idx-th result over all returns of a module-local callee with a body.
 func resultInterval(c *ssa.Call, idx int, depth int) (Itv, bool) {
-	if c.Call.IsInvoke() || depth > 8 {
+	if c.Call.IsInvoke() {
 		return Itv{}, false
 	}
 	h := c.Call.StaticCallee()
@@ -665,7 +665,8 @@ func resultInterval(c *ssa.Call, idx int, depth int) (Itv, bool) {
 		if idx >= len(res) || !isInteger(res[idx].Type()) {
 			return Itv{}, false
 		}
-		iv := e2.at(res[idx], ret.Block(), depth+4)
+		// the summary is memoised per function: it must not depend on how deep the first asker was
+		iv := e2.at(res[idx], ret.Block(), 0)
 		if first {
 			hull, first = iv, false
 		} else {
